@@ -1,8 +1,7 @@
 import PyttbModel.Driver.C12
-import PyttbModel.Driver.C01
 open Lean Pyttb Pyttb.Codec Pyttb.Driver
 
-def allOps : List (String × Op) := ops12 ++ ops07 ++ ops01
+def allOps : List (String × Op) := ops12
 
 def handle (line : String) : String :=
   match Json.parse line with
